@@ -160,3 +160,33 @@ package allocation
 //@   ensures [C07:perm-timer] res == nil ==> has(a.permissions, ipKey(chanBind.Peer)) && timerSet(a.permissions[ipKey(chanBind.Peer)].lifetimeTimer, permissionLifetime)
 //@   ensures allocWF(a) && permTimers(a) && chanTimers(a) && timersDisjoint(a)
 //@   assigns a.channelBindings, mem(a.channelBindings), chanBind.allocation, chanBind.lifetimeTimer, entries(a.permissions), timers
+
+//@      // ---- 5-tuple identity (C04): the fingerprint is the 16-byte form of both IPs, both ports (mod 2^16) and the protocol
+//@ spec func ip16at(a net.Addr, i int) int = ((isUDP(a) || isTCP(a)) && validIP(ipOf(a))) ? ip16byte(ipOf(a), i) : 0
+//@ spec func portAt(a net.Addr) int = (isUDP(a) || isTCP(a)) ? wrap16(portOf(a)) : 0
+//@ spec func tupleKey(src net.Addr, dst net.Addr, proto int) int = mapkey(FiveTupleFingerprint, ip16at(src, 0), ip16at(src, 1), ip16at(src, 2), ip16at(src, 3), ip16at(src, 4), ip16at(src, 5), ip16at(src, 6), ip16at(src, 7), ip16at(src, 8), ip16at(src, 9), ip16at(src, 10), ip16at(src, 11), ip16at(src, 12), ip16at(src, 13), ip16at(src, 14), ip16at(src, 15), ip16at(dst, 0), ip16at(dst, 1), ip16at(dst, 2), ip16at(dst, 3), ip16at(dst, 4), ip16at(dst, 5), ip16at(dst, 6), ip16at(dst, 7), ip16at(dst, 8), ip16at(dst, 9), ip16at(dst, 10), ip16at(dst, 11), ip16at(dst, 12), ip16at(dst, 13), ip16at(dst, 14), ip16at(dst, 15), portAt(src), portAt(dst), proto)
+//@ spec func allocOf(m *Manager, src net.Addr, dst net.Addr, proto int) *Allocation = haskey(m.allocations, tupleKey(src, dst, proto)) ? valat(m.allocations, tupleKey(src, dst, proto)) : nil
+
+//@ func (*FiveTuple).Fingerprint
+//@   pure
+//@   ensures [C04:fp] structkey(fp) == tupleKey(f.SrcAddr, f.DstAddr, int(f.Protocol))
+
+//@ func (*Manager).GetAllocation
+//@   requires fiveTuple != nil
+//@   pure
+//@   ensures [C04:lookup] res == allocOf(m, fiveTuple.SrcAddr, fiveTuple.DstAddr, int(fiveTuple.Protocol))
+
+//@ func (*Manager).GetAllocationForUserID
+//@   requires fiveTuple != nil
+//@   pure
+//@   ensures [C03,C04:owner] (res != nil) == (allocOf(m, fiveTuple.SrcAddr, fiveTuple.DstAddr, int(fiveTuple.Protocol)) != nil && allocOf(m, fiveTuple.SrcAddr, fiveTuple.DstAddr, int(fiveTuple.Protocol)).userID == userID)
+//@   ensures [C03,C04:owner-val] res != nil ==> res == allocOf(m, fiveTuple.SrcAddr, fiveTuple.DstAddr, int(fiveTuple.Protocol))
+
+//@ func (*Manager).GrantPermission
+//@   ensures [C01:veto] (res == nil) == (m.permissionHandler == nil || handlerSaid(m.permissionHandler, sourceAddr, ipStr(peerIP)))
+//@   ensures [C01:veto-err] res != nil ==> res == errAdminProhibited
+//@   ensures [C01:granted] res == nil ==> granted[ipStr(peerIP)]
+//@   ensures [C01:granted-frame] forall k :: k != ipStr(peerIP) ==> granted[k] == old(granted[k])
+//@   ensures res != nil ==> granted == old(granted)
+//@   ghost-set granted[ipStr(peerIP)] = true when res == nil
+//@   assigns granted
